@@ -120,11 +120,11 @@ static int textlayer() {
 int main(int argc, char **argv) {
     if (argc > 1 && !strcmp(argv[1], "C05text")) return textlayer();
     if (argc > 1 && !strcmp(argv[1], "C05")) {
-        static const int32_t sets[][7] = { {8, 1024, 1, 2, 4, 2, 1}, {5, 1024, 1, 3, 3, 3, 2}, {6, 1024, 2, 2, 5, 2, 1} };
+        static const int32_t sets[][7] = { {8, 1024, 1, 2, 4, 2, 1}, {5, 1024, 1, 3, 3, 3, 2}, {6, 1024, 2, 2, 5, 2, 1}, {1100, 1024, 1, 1, 8, 1, 1} };
         for (auto &s : sets) if (roundtrip(s[0], s[1], s[2], s[3], s[4], s[5], s[6], 7)) return 1;
         return 0;
     }
-    static const int32_t sets[][7] = { {8, 1024, 1, 2, 4, 2, 1}, {5, 1024, 1, 3, 3, 3, 2}, {6, 1024, 2, 2, 5, 2, 1}, {33, 1024, 1, 1, 8, 1, 2} }   /* the FFT processors exist for N = 1024 only */;
+    static const int32_t sets[][7] = { {8, 1024, 1, 2, 4, 2, 1}, {5, 1024, 1, 3, 3, 3, 2}, {6, 1024, 2, 2, 5, 2, 1}, {33, 1024, 1, 1, 8, 1, 2}, {1100, 1024, 1, 1, 8, 1, 1} }   /* the FFT processors exist for N = 1024 only; the last set has n > k*N */;
     for (auto &s : sets) for (uint32_t seed = 1; seed <= 2; seed++) if (one(s[0], s[1], s[2], s[3], s[4], s[5], s[6], seed)) return 1;
     return 0;
 }
